@@ -670,3 +670,7 @@ SUBCHECKS = [
              'in place (inner.set / del, Address.set_anycast) between serialisations of the same outer object'),
     Sub('invalid-keys', check_invalid, strategy=lambda tier: st_invalid(), classify=classify, nontrivial=nt, n=(1500, 20000), shards=(8, 16)),
 ]
+
+# the same generated cases, several at a time, checked by threads that run at the same time (core.run_overlapping): per-call state
+# kept in a place two calls share shows only there
+SUBCHECKS.append(__import__('harness.core', fromlist=['overlapped']).overlapped(next(s for s in SUBCHECKS if s.name == 'random-maps'), k=3, n=(40, 1500)))
